@@ -26,10 +26,11 @@ import (
 // ---- world (per process)
 
 const (
-	c38Facts   = 4  // operation fact alphabet (duplicates are the point)
-	c38OpsPer  = 12 // pre-signed operations per fact (distinct operation hashes, same fact)
-	c38Heights = 3  // heights 11..13
-	c38Rounds  = 2
+	c38Facts    = 4  // operation fact alphabet (duplicates are the point)
+	c38OpsPer   = 12 // pre-signed operations per fact (distinct operation hashes, same fact)
+	c38Heights  = 6  // heights 11..16 (the pool's cleanup needs a spread of more than 3 heights to have something to remove)
+	c38KeepDeep = 3  // documented memory of the pool: the cleanup removes proposals 3 or more heights below the newest stored one, and keeps the newer ones
+	c38Rounds   = 2
 )
 
 type c38World struct {
@@ -118,11 +119,12 @@ func (c c38Call) String() string {
 type c38Phase struct {
 	Add       []int       // facts of the operations added to the pool before the calls (in this order)
 	AddDuring []int       // facts of operations added by an extra goroutine while the calls run
-	LastH     int         // last block map: -1 none, else height 10+LastH (LastH 0..3)
+	LastH     int         // last block map: -1 none, else height 10+LastH (LastH 0..c38Heights)
 	LastPrev  int         // hash of the last manifest = prevs[LastPrev]
 	Workers   [][]c38Call // one list per goroutine
 
 	// history faults
+	Clean     int  // before this phase (after the restart, if any) the pool's proposal cleanup (what the 33 min clean daemon does; hook H4) runs Clean times
 	Reopen    bool // before this phase the pool is closed and opened again on the same storage, with a new maker (node restart)
 	FaultFrom int  // 0: none; else the FaultFrom-th write to the storage issued while the calls of this phase run is refused ...
 	FaultN    int  // ... and so are the FaultN-1 writes after it (c38FaultSticky: every later write of the phase); writes work again after the phase
@@ -167,12 +169,47 @@ func c38GenProgram(t *rapid.T) c38Program {
 	}
 
 	used := make([]int, c38Facts)
-	nphases := rapid.IntRange(1, 3).Draw(t, "phases")
 
 	// a few positions that most calls go to, so that one position is asked for often and concurrently
-	hot := []c38Pos{c38GenPos(t, "hot0", nil)}
-	if rapid.Bool().Draw(t, "twoHot") {
-		hot = append(hot, c38GenPos(t, "hot1", nil))
+	var hot []c38Pos
+
+	var nphases int
+
+	lastHs := []int{-1, 0, 0, 1, 1, 2, 3, 4, 5}
+
+	if rapid.IntRange(0, 2).Draw(t, "ladder") != 0 {
+		// the node proposes for consecutive heights (last-1, last, last+1 while the last block moves along), sometimes also for
+		// unreachable higher points (Make hands out empty proposals for them; a peer may ask for any point): these are the stored
+		// proposals the pool's cleanup walks over
+		h0 := rapid.IntRange(0, c38Heights-3).Draw(t, "ladderH")
+
+		for d := 0; d < 3; d++ {
+			hot = append(hot, c38Pos{
+				H:    h0 + d,
+				R:    rapid.IntRange(0, c38Rounds-1).Draw(t, fmt.Sprintf("ladder%dR", d)),
+				Prev: rapid.IntRange(0, 1).Draw(t, fmt.Sprintf("ladder%dP", d)),
+			})
+		}
+
+		if h0+3 < c38Heights && rapid.IntRange(0, 2).Draw(t, "ladderTop") == 0 {
+			hot = append(hot, c38Pos{
+				H:    rapid.IntRange(h0+3, c38Heights-1).Draw(t, "ladderTopH"),
+				R:    rapid.IntRange(0, c38Rounds-1).Draw(t, "ladderTopR"),
+				Prev: rapid.IntRange(0, 1).Draw(t, "ladderTopP"),
+			})
+		}
+
+		// last block around the ladder: height 10+LastH; the bottom of the ladder is height 11+h0
+		lastHs = []int{-1, h0, h0 + 1, h0 + 2, h0 + 2, h0 + 3}
+
+		nphases = rapid.IntRange(2, 4).Draw(t, "phases")
+	} else {
+		nphases = rapid.IntRange(1, 3).Draw(t, "phases")
+
+		hot = []c38Pos{c38GenPos(t, "hot0", nil)}
+		if rapid.Bool().Draw(t, "twoHot") {
+			hot = append(hot, c38GenPos(t, "hot1", nil))
+		}
 	}
 
 	genFacts := func(label string, max int) []int {
@@ -198,7 +235,7 @@ func c38GenProgram(t *rapid.T) c38Program {
 
 		ph := c38Phase{
 			Add:      genFacts(lb+"add", 8),
-			LastH:    rapid.SampledFrom([]int{-1, 0, 0, 1, 1, 2, 3}).Draw(t, lb+"lastH"),
+			LastH:    rapid.SampledFrom(lastHs).Draw(t, lb+"lastH"),
 			LastPrev: rapid.IntRange(0, 1).Draw(t, lb+"lastPrev"),
 		}
 
@@ -208,6 +245,10 @@ func c38GenProgram(t *rapid.T) c38Program {
 
 		if i > 0 {
 			ph.Reopen = rapid.IntRange(0, 3).Draw(t, lb+"reopen") == 0
+
+			if rapid.Bool().Draw(t, lb+"clean") {
+				ph.Clean = rapid.SampledFrom([]int{1, 1, 2, 3}).Draw(t, lb+"cleanN")
+			}
 		}
 
 		if rapid.IntRange(0, 2).Draw(t, lb+"fault") == 0 {
@@ -254,6 +295,10 @@ func (p c38Program) fingerprint() string {
 			b.WriteString(" reopen")
 		}
 
+		if ph.Clean > 0 {
+			fmt.Fprintf(&b, " cleanProposals*%d", ph.Clean)
+		}
+
 		switch {
 		case ph.FaultFrom < 1:
 		case ph.FaultN == c38FaultSticky:
@@ -274,6 +319,63 @@ func (p c38Program) fingerprint() string {
 	}
 
 	return b.String()
+}
+
+// c38CleanMark is one run of the pool's proposal cleanup (1 or more passes) between two phases.
+type c38CleanMark struct {
+	BeforePhase int
+	// TopUB is an upper bound of the newest height of a proposal in the pool at that moment: the highest height Make/PreferEmpty was
+	// asked for in any earlier phase (nothing else stores proposals here); -1 when nothing was asked.
+	TopUB int
+	// TopLB is a lower bound of it: the highest height a proposal was handed out for (without error) in any earlier phase; such a
+	// proposal is in the pool, and the cleanup never removes the newest height. -1 when nothing was handed out.
+	TopLB int
+}
+
+// surelyForgets: the position is c38KeepDeep or more heights below a proposal that is in the pool for sure.
+func (m c38CleanMark) surelyForgets(pos c38Pos) bool {
+	return m.TopLB >= 0 && 11+pos.H <= m.TopLB-c38KeepDeep
+}
+
+// forgets: the position is at least c38KeepDeep heights below (the upper bound of) the newest stored proposal; the pool is
+// allowed to forget it. With the upper bound instead of the real top fewer positions count as remembered, never more.
+func (m c38CleanMark) forgets(pos c38Pos) bool {
+	return m.TopUB >= 0 && 11+pos.H <= m.TopUB-c38KeepDeep
+}
+
+// c38Epoch numbers the stretches of the history in which the pool has to remember the position: a new one starts at every cleanup
+// that may forget it.
+func c38Epoch(marks []c38CleanMark, pos c38Pos, phase int) (n int) {
+	for _, m := range marks {
+		if m.BeforePhase <= phase && m.forgets(pos) {
+			n++
+		}
+	}
+
+	return n
+}
+
+// c38TopBefore: the highest TopUB of the cleanups up to the phase (for messages).
+func c38TopBefore(marks []c38CleanMark, phase int) (top int) {
+	top = -1
+
+	for _, m := range marks {
+		if m.BeforePhase <= phase && m.TopUB > top {
+			top = m.TopUB
+		}
+	}
+
+	return top
+}
+
+func c38CleanBetween(marks []c38CleanMark, phaseA, phaseB int) bool {
+	for _, m := range marks {
+		if m.BeforePhase > phaseA && m.BeforePhase <= phaseB {
+			return true
+		}
+	}
+
+	return false
 }
 
 type c38Result struct {
@@ -386,6 +488,10 @@ func c38Run(t ev.TB, r *ev.Rec, w *c38World, p c38Program) (classes []string, no
 
 	poolNonEmptyDuringCalls := false
 
+	var marks []c38CleanMark
+
+	topAsked := -1 // highest height asked for so far
+
 	for pi, ph := range p.Phases {
 		if ph.Reopen {
 			// node restart: same storage, new pool object (getOperations and addOp follow the variable), new maker
@@ -398,6 +504,33 @@ func c38Run(t ev.TB, r *ev.Rec, w *c38World, p c38Program) (classes []string, no
 			}
 
 			maker = isaac.NewProposalMaker(w.local, w.networkID, getOperations, pool, lastBlockMap)
+		}
+
+		if ph.Clean > 0 {
+			// the clean daemon ticks (no calls are running, no write is refused)
+			for i := 0; i < ph.Clean; i++ {
+				if _, err := pool.VerifCleanProposals(); err != nil {
+					t.Fatalf("harness: cleanProposals: %v", err)
+				}
+			}
+
+			topAnswered := -1
+
+			for _, res := range results { // the goroutines of the earlier phases are done
+				if h := 11 + res.Call.Pos.H; res.Panic == "" && res.Err == nil && res.PR != nil && h > topAnswered {
+					topAnswered = h
+				}
+			}
+
+			marks = append(marks, c38CleanMark{BeforePhase: pi, TopUB: topAsked, TopLB: topAnswered})
+		}
+
+		for _, calls := range ph.Workers {
+			for _, c := range calls {
+				if h := 11 + c.Pos.H; h > topAsked {
+					topAsked = h
+				}
+			}
 		}
 
 		for _, f := range ph.Add {
@@ -507,34 +640,77 @@ func c38Run(t ev.TB, r *ev.Rec, w *c38World, p c38Program) (classes []string, no
 		}
 	}
 
-	byPos := map[c38Pos][]c38Result{}
-	var order []c38Pos
+	// All proposals handed out for one position are compared, over the whole history, except across a cleanup of the pool that may
+	// forget the position (it is c38KeepDeep or more heights below the newest stored proposal): there the history of the position
+	// is cut and each part is judged on its own.
+	type c38Slot struct {
+		Pos   c38Pos
+		Epoch int
+	}
+
+	byPos := map[c38Slot][]c38Result{}
+	var order []c38Slot
+
+	sameProposal := func(a, b base.ProposalSignFact) bool {
+		return a.Fact().Hash().Equal(b.Fact().Hash()) && bytes.Equal(a.HashBytes(), b.HashBytes())
+	}
+
+	answered := map[c38Pos][]c38Result{} // every proposal handed out for the position, whatever the cleanups
+	forgottenThenAsked := false
+
+	var forgottenThenOther [][2]c38Result // the last proposal handed out before the cut and the first, different one after it
 
 	for _, res := range results {
 		if res.Panic != "" || res.Err != nil || res.PR == nil {
 			continue
 		}
 
-		if _, ok := byPos[res.Call.Pos]; !ok {
-			order = append(order, res.Call.Pos)
+		slot := c38Slot{Pos: res.Call.Pos, Epoch: c38Epoch(marks, res.Call.Pos, res.Phase)}
+
+		if _, ok := byPos[slot]; !ok {
+			order = append(order, slot)
+
+			// asked again after a cleanup that was allowed to forget the position: judged after the clauses of the kept window
+			if prevs := answered[slot.Pos]; len(prevs) > 0 {
+				forgottenThenAsked = true
+
+				if prev := prevs[len(prevs)-1]; !sameProposal(prev.PR, res.PR) {
+					forgottenThenOther = append(forgottenThenOther, [2]c38Result{prev, res})
+				}
+			}
 		}
 
-		byPos[res.Call.Pos] = append(byPos[res.Call.Pos], res)
+		byPos[slot] = append(byPos[slot], res)
+		answered[slot.Pos] = append(answered[slot.Pos], res)
 	}
 
 	dupFactSeen := false
+	answeredAcrossCleanup := false
 
-	for _, pos := range order {
-		rs := byPos[pos]
+	for _, slot := range order {
+		pos := slot.Pos
+		rs := byPos[slot]
 		first := rs[0].PR
 		point := base.NewPoint(base.Height(int64(11+pos.H)), base.Round(uint64(pos.R)))
 
 		// one proposal per position
 		for _, res := range rs[1:] {
-			if !res.PR.Fact().Hash().Equal(first.Fact().Hash()) || !bytes.Equal(res.PR.HashBytes(), first.HashBytes()) {
-				r.Violation(t, "two-proposals-one-position", "position %s got two different proposals: %s (phase %d g%d %s) and %s (phase %d g%d %s); program %s",
-					pos, first.Fact().Hash(), rs[0].Phase, rs[0].Worker, rs[0].Call, res.PR.Fact().Hash(), res.Phase, res.Worker, res.Call, prog)
+			cleaned := c38CleanBetween(marks, rs[0].Phase, res.Phase)
+			answeredAcrossCleanup = answeredAcrossCleanup || cleaned
+
+			if sameProposal(res.PR, first) {
+				continue
 			}
+
+			if cleaned {
+				r.Violation(t, "two-proposals-one-position-after-cleanup", "position %s got two different proposals: %s (phase %d g%d %s) and, after the pool's proposal cleanup ran, %s (phase %d g%d %s); "+
+					"no height above %d was asked for before the cleanup(s), so the position is less than %d heights below the newest proposal in the pool and not too old for the maker; program %s",
+					pos, first.Fact().Hash(), rs[0].Phase, rs[0].Worker, rs[0].Call, res.PR.Fact().Hash(), res.Phase, res.Worker, res.Call,
+					c38TopBefore(marks, res.Phase), c38KeepDeep, prog)
+			}
+
+			r.Violation(t, "two-proposals-one-position", "position %s got two different proposals: %s (phase %d g%d %s) and %s (phase %d g%d %s); program %s",
+				pos, first.Fact().Hash(), rs[0].Phase, rs[0].Worker, rs[0].Call, res.PR.Fact().Hash(), res.Phase, res.Worker, res.Call, prog)
 		}
 
 		// it is the local node's proposal for exactly that position
@@ -574,14 +750,64 @@ func c38Run(t ev.TB, r *ev.Rec, w *c38World, p c38Program) (classes []string, no
 			r.Violation(t, "invalid-proposal", "proposal for %s is not valid: %v; program %s", pos, err, prog)
 		}
 
-		// the pool's by-point lookup agrees
+		// the pool's by-point lookup agrees (unless a later cleanup was allowed to forget the position)
 		switch pr, found, err := pool.ProposalByPoint(point, w.local.Address(), w.prevs[pos.Prev]); {
+		case slot.Epoch != c38Epoch(marks, pos, len(p.Phases)):
 		case err != nil:
 			r.Violation(t, "pool-lookup-differs", "pool lookup for %s failed: %v; program %s", pos, err, prog)
+		case !found && c38CleanBetween(marks, rs[0].Phase, len(p.Phases)):
+			r.Violation(t, "pool-lookup-differs-after-cleanup", "pool has no proposal for %s although the maker returned %s (phase %d) and only the pool's proposal cleanup ran since; "+
+				"no height above %d was asked for before the cleanup(s), so the position is less than %d heights below the newest proposal in the pool; program %s",
+				pos, first.Fact().Hash(), rs[0].Phase, c38TopBefore(marks, len(p.Phases)), c38KeepDeep, prog)
 		case !found:
 			r.Violation(t, "pool-lookup-differs", "pool has no proposal for %s although the maker returned %s; program %s", pos, first.Fact().Hash(), prog)
 		case !pr.Fact().Hash().Equal(first.Fact().Hash()):
 			r.Violation(t, "pool-lookup-differs", "pool returns %s for %s, the maker returned %s; program %s", pr.Fact().Hash(), pos, first.Fact().Hash(), prog)
+		}
+	}
+
+	// Outside the kept window (judged last, so that it never hides a clause of the kept window): the statement knows no window. A
+	// position that the maker still accepts, but that is c38KeepDeep or more heights below a higher proposal stored in the pool, is
+	// forgotten by the cleanup and then answered with another proposal.
+	forgottenKnown, forgottenUnsure := false, false
+
+	for _, pair := range forgottenThenOther {
+		prev, res := pair[0], pair[1]
+		pos := res.Call.Pos
+
+		surely, newest := false, -1
+
+		for _, m := range marks {
+			if m.BeforePhase > prev.Phase && m.BeforePhase <= res.Phase && m.surelyForgets(pos) {
+				surely = true
+
+				if m.TopLB > newest {
+					newest = m.TopLB
+				}
+			}
+		}
+
+		lastH := p.Phases[res.Phase].LastH // the maker accepts height >= last block height - 1 (or anything without a last block)
+
+		lastDesc := "no last block"
+		if lastH >= 0 {
+			lastDesc = fmt.Sprintf("last block height %d", 10+lastH)
+		}
+
+		switch {
+		case lastH >= 0 && 11+pos.H < 10+lastH-1: // answered although too old for the maker: not this finding
+			forgottenUnsure = true
+		case !surely:
+			// The call(s) for the highest height(s) before the cleanup failed: whether the position was inside the kept window is not
+			// known from outside; not judged.
+			forgottenUnsure = true
+		default:
+			forgottenKnown = true
+
+			r.Violation(t, "proposal-forgotten-by-cleanup-below-newest-stored", "position %s got two different proposals: %s (phase %d g%d %s) and, after the pool's proposal cleanup ran, %s (phase %d g%d %s); "+
+				"the maker still accepts the position (%s), but a proposal for height %d, %d or more heights above it, was stored before the cleanup, so the pool forgot the position; program %s",
+				pos, prev.PR.Fact().Hash(), prev.Phase, prev.Worker, prev.Call, res.PR.Fact().Hash(), res.Phase, res.Worker, res.Call,
+				lastDesc, newest, c38KeepDeep, prog)
 		}
 	}
 
@@ -609,12 +835,12 @@ func c38Run(t ev.TB, r *ev.Rec, w *c38World, p c38Program) (classes []string, no
 		}
 	}
 
-	for _, pos := range order {
-		if len(byPos[pos]) >= 2 {
+	for _, slot := range order {
+		if len(byPos[slot]) >= 2 {
 			repeatedPos = true
 		}
 
-		if len(byPos[pos][0].PR.ProposalFact().Operations()) > 0 {
+		if len(byPos[slot][0].PR.ProposalFact().Operations()) > 0 {
 			withOps = true
 		}
 	}
@@ -642,7 +868,7 @@ func c38Run(t ev.TB, r *ev.Rec, w *c38World, p c38Program) (classes []string, no
 		}
 
 		if c38IsFault(res.Err) {
-			for _, other := range byPos[res.Call.Pos] {
+			for _, other := range answered[res.Call.Pos] {
 				if other.Phase >= res.Phase {
 					refusedThenAnswered = true
 				}
@@ -652,6 +878,25 @@ func c38Run(t ev.TB, r *ev.Rec, w *c38World, p c38Program) (classes []string, no
 
 	for _, ph := range p.Phases {
 		anyReopen = anyReopen || ph.Reopen
+	}
+
+	// a cleanup that had proposals to remove: something was answered c38KeepDeep or more heights below the highest height answered
+	cleanupRemoves := false
+
+	for _, m := range marks {
+		top := -1
+
+		for _, res := range results {
+			if res.Phase < m.BeforePhase && res.Err == nil && res.PR != nil && 11+res.Call.Pos.H > top {
+				top = 11 + res.Call.Pos.H
+			}
+		}
+
+		for _, res := range results {
+			if res.Phase < m.BeforePhase && res.Err == nil && res.PR != nil && 11+res.Call.Pos.H <= top-c38KeepDeep {
+				cleanupRemoves = true
+			}
+		}
 	}
 
 	if concurrentSamePos {
@@ -694,6 +939,30 @@ func c38Run(t ev.TB, r *ev.Rec, w *c38World, p c38Program) (classes []string, no
 		classes = append(classes, "pool-reopened-on-same-storage")
 	}
 
+	if len(marks) > 0 {
+		classes = append(classes, "proposal-cleanup-ran")
+	}
+
+	if cleanupRemoves {
+		classes = append(classes, "proposal-cleanup-had-something-to-remove")
+	}
+
+	if answeredAcrossCleanup {
+		classes = append(classes, "position-in-kept-window-answered-before-and-after-cleanup")
+	}
+
+	if forgottenThenAsked {
+		classes = append(classes, "position-below-kept-window-asked-again-after-cleanup")
+	}
+
+	if forgottenKnown {
+		classes = append(classes, "proposal-forgotten-by-cleanup-below-newest-stored(known-finding)")
+	}
+
+	if forgottenUnsure {
+		classes = append(classes, "position-maybe-below-kept-window-got-another-proposal-after-cleanup(not-judged)")
+	}
+
 	for _, b := range p.Reject {
 		if b {
 			classes = append(classes, "with-filter")
@@ -702,7 +971,7 @@ func c38Run(t ev.TB, r *ev.Rec, w *c38World, p c38Program) (classes []string, no
 		}
 	}
 
-	nontrivial = (concurrentSamePos && poolNonEmptyDuringCalls) || refusedThenAnswered
+	nontrivial = (concurrentSamePos && poolNonEmptyDuringCalls) || refusedThenAnswered || answeredAcrossCleanup
 
 	return classes, nontrivial
 }
@@ -711,18 +980,25 @@ func TestC38(t *testing.T) {
 	r := ev.Start(t, "C38")
 	defer r.Finish()
 	r.Rule("real ProposalMaker over a real TempPool (mem leveldb), getOperations = pool.OperationHashes(limit 1..10, optional fact filter as launch uses); " +
-		"1..3 phases; per phase: 0..8 operations added (4 facts, so duplicate facts with distinct operation hashes), last block map none/height 10..13 with one of two hashes, " +
-		"1..8 goroutines (barrier start) each calling Make/PreferEmpty 1..3 times for positions from 3 heights x 2 rounds x 2 previous blocks (1-2 hot positions), " +
+		"1..3 phases (2..4 in ladder programs); per phase: 0..8 operations added (4 facts, so duplicate facts with distinct operation hashes), last block map none/height 10..16 with one of two hashes, " +
+		"1..8 goroutines (barrier start) each calling Make/PreferEmpty 1..3 times for positions from 6 heights x 2 rounds x 2 previous blocks (1-2 hot positions; in 2/3 of the programs the hot positions are a ladder " +
+		"of 3 consecutive heights around the last block, in a third of those plus one higher, unreachable height), " +
 		"optionally operations added concurrently; history faults: in 1/3 of the phases the k-th (1..4) storage write issued while the calls run is refused (1, 2, 3 or all later writes of the phase; " +
-		"leveldb fault hook H3), writes work again afterwards; in 1/4 of the later phases the pool is closed and re-opened on the same storage with a new maker (restart). " +
-		"non-trivial: >=2 goroutines ask for one position in one phase and the pool is not empty, or a call failed on a refused write and the same position was answered in the same or a later phase; distinct by the whole program")
+		"leveldb fault hook H3), writes work again afterwards; in 1/4 of the later phases the pool is closed and re-opened on the same storage with a new maker (restart); " +
+		"before half of the later phases the pool's proposal cleanup (what the clean daemon does every 33 min; hook H4 VerifCleanProposals) runs 1..3 times, then the positions are asked again with a changed operation pool. " +
+		"non-trivial: >=2 goroutines ask for one position in one phase and the pool is not empty, or a call failed on a refused write and the same position was answered in the same or a later phase, " +
+		"or a position less than 3 heights below the highest height asked so far was answered before and after a cleanup; distinct by the whole program")
 	r.Floor(100)
 	r.Assume(
 		"an error return (e.g. too old, or the storage refused the write) is not a proposal and is not judged; a panic out of Make/PreferEmpty is judged as a failure to return the proposal",
 		"a proposal returned without error counts as handed out whatever happened to the storage write: all proposals handed out for one position over the whole history (refused writes, restarts) must be the same, and the pool's by-point lookup must return it",
 		"a refused storage write returns an error to the pool and leaves the storage unchanged (no partial batch); refused writes that hit the concurrent SetOperation writer only keep that operation out of the pool",
 		"'the same signed proposal' = same fact hash and same HashBytes; 'for that position' = the fact carries the asked point, previous block and the local proposer",
-		"the pool cleanup daemon (33 min tick) is not running",
+		"the pool cleanup daemon (33 min tick) is not running; its proposal step is called directly between phases (never while calls run). The pool is specified to keep the proposals of the newest stored height and the two heights below it "+
+			"(cleanRemovedProposalDeep = 3, in-tree TestCleanOldProposals: top-3 removed, top kept): a position less than 3 heights below the highest height ever asked for before the cleanup must be answered with the same proposal after any number of cleanups; "+
+			"a position 3 or more heights below it is beyond what the pool remembers: its history is cut at that cleanup and the parts are judged separately. Another proposal after such a cut is reported under the signature proposal-forgotten-by-cleanup-below-newest-stored "+
+			"(the statement knows no window) when the maker still accepts the position and a proposal 3 or more heights above it was handed out without error (so it is stored) before the cleanup; when only failed calls asked for such heights it is not judged. "+
+			"The clauses of the kept window are judged first",
 		"goroutine interleavings are sampled (barrier start, bounded pause inside getOperations), not enumerated",
 	)
 
